@@ -349,7 +349,9 @@ class ExpSystem(System):
         tmp = tempfile.mkdtemp(prefix="vex")
         try:
             path = os.path.join(tmp, "x.ebf")
-            loaders = [("frombytes", lambda: cls.frombytes(blob, hash_function=hf, **kw))]
+            loaders = [("frombytes", lambda: cls.frombytes(blob, hash_function=hf, **kw)),
+                       ("frombytes(bytearray)", lambda: cls.frombytes(bytearray(blob), hash_function=hf, **kw)),
+                       ("frombytes(memoryview)", lambda: cls.frombytes(memoryview(blob), hash_function=hf, **kw))]
             e = call(f.export, path)
             if e[0] != "ok":
                 bad("C05", "exp.export_path", {"obs": e})
